@@ -17,10 +17,11 @@ Protocol handler of the C16 slice.  One line = one history of `ReadEntity` calls
 
 The body itself does not travel: the model never looks into bytes, so a body is a token and the
 codec of the model is the table of facts the harness measured with the standard library alone.
-The answer gives, per read, every result the model allows, the decoder and lookup path taken, the
-ledger and the reader object, the spec predicate on the REAL observation and two classes: f62, the
-class of the open finding F62, and f61, the class of the finding F61 repaired by 75d0593 (coverage
-only: the check counts how often its stream visits it; it excuses nothing):
+The answer gives, per read, the result of the model (one on every registry with distinct keys), the
+decoder and lookup path taken, the ledger and the reader object, the spec predicate on the REAL
+observation and two classes, both of REPAIRED findings: f62 (F62, repaired by 8b400b4) and f61 (F61,
+repaired by 75d0593) — coverage only: the check counts how often its stream visits them; they
+excuse nothing:
 
   (out <id> (r (res <result>…) (dec gzip|deflate|identity) (acc <lookup>) (ev …) (rid …) (tag …) (s 0|1) (cl <6 clause bits>) (f61 0|1) (f62 0|1))… (spec C16 0|1) (wf 0|1))
 -/
